@@ -226,6 +226,10 @@ impl<'a> Gen<'a> {
                 let body = if op != "!" && rng.chance(1, 2) {
                     // the usual idiom: quantify, then jump
                     F::hyb("@", &v, None, self.rec(rng, size.saturating_sub(2).max(1), scope))
+                } else if size >= 6 && rng.chance(1, 5) {
+                    // a jump as the left sibling of the rest of the body
+                    let j = F::hyb("@", &v, None, self.rec(rng, 2, scope));
+                    F::bin(*rng.pick(&["&", "|"]), j, self.rec(rng, size - 4, scope))
                 } else {
                     self.rec(rng, size - 1, scope)
                 };
